@@ -17,16 +17,30 @@ def only(*names):
 
 PROPERTIES = {
     "C01": {
-        "rt": ["rt.logic:c01_encoding"],
+        "harness_modules": ["contracts.c01"],
+        "harness_filter": only("lemma.enc_sound"),
+        "rt": ["rt.logic:a_rs1_rows", "rt.logic:c01_encoding"],
         "level": "other",
-        "assumptions": S_ALL + ["A-rs1: rows produced by puan_rspy.TheoryPy.to_ge_polyhedron (compiled Rust) are not under contract"],
-        "explanation": "bounded stand-in only so far (end-to-end agreement of the produced polyhedron with evaluation)",
+        "assumptions": S_ALL + ["A-rs1 (assumed contract of the compiled extension puan_rspy.TheoryPy.to_ge_polyhedron: one big-M row per compound, "
+                                "e_k = sum min(s*lo, s*hi), m_k = e_k - value, asserted top row without own column); validated at run "
+                                "time row by row together with the Python glue of AtLeast.to_ge_polyhedron, not proved"],
+        "explanation": "deductive: lemma.enc_sound -- given the rows of A-rs1, for a node with any number of children, both signs, all "
+                       "bounds and thresholds, the row holds at (leaf assignment in bounds, truth values of sub-propositions) and the "
+                       "asserted top row holds iff the node is true (induction on height). bounded stand-ins: (1) the matrix "
+                       "returned by the real to_ge_polyhedron equals the rows A-rs1 predicts, row for row, with the model's ids and "
+                       "bounds on the columns (this covers the Python statement building and column re-attachment); (2) end to end "
+                       "A x >= b <=> evaluate on random models incl. wide bounds and near-identical variants in sequence.",
     },
     "C02": {
-        "rt": ["rt.logic:c02_solutions"],
+        "harness_modules": ["contracts.c01"],
+        "rt": ["rt.logic:a_rs1_rows", "rt.logic:c02_solutions"],
         "level": "other",
-        "assumptions": S_ALL + ["A-rs1"],
-        "explanation": "bounded stand-in only so far (all integer points of small polyhedra of safe models)",
+        "assumptions": S_ALL + ["A-rs1 (see C01)"],
+        "explanation": "deductive: lemma.enc_sound (completeness: a satisfying assignment extends to a point, X := truth values) and "
+                       "lemma.sound_safe (for a node with no compound child under a negative sign, every in-bounds integer point of "
+                       "its row has X_k <= truth(k); an asserted top row gives truth = 1), any number of children, induction on "
+                       "height; negation re-establishes the safe form (C05 post.safe). bounded stand-ins: A-rs1 row validation; all "
+                       "integer points of small polyhedra; sampled points for wide bounds; unsafe models as reachability canaries.",
     },
     "C03": {
         "harness_modules": ["contracts.assume"],
